@@ -342,6 +342,27 @@ func checkFlushAfterWrite(c *Ctx, r *Report) {
 					}
 				}
 			}
+			if escape != nil && !flagSeen {
+				// the streaming test may sit in the caller: a helper that every caller invokes only on the not-streaming
+				// side of the flag relays buffered responses, for which nothing has to be flushed per chunk
+				sites := c.staticCallSites(func(ci callInfo) bool { return ci.Static == f })
+				all := len(sites) > 0
+				for _, s := range sites {
+					not := false
+					for _, cf := range normFacts(condFacts(s.Block())) {
+						if streamingFlag(c, cf.Cond, 4) && !cf.True {
+							not = true
+						}
+					}
+					if !not {
+						all = false
+					}
+				}
+				if all {
+					r.OK("C18-R2", key, in.Pos(), "the function is called only for responses that are not streamed (every call site lies on the not-streaming side of the flag)")
+					return
+				}
+			}
 			if escape != nil {
 				r.Bad("C18-R2", key, in.Pos(), "after a successful write of relayed data some path with streaming enabled returns without flushing ("+escapeWhy+" at "+c.Pos(escape.Pos())+"): a chunk can sit in the buffer until the backend sends more")
 			} else {
